@@ -338,6 +338,31 @@ class PosBase(np.ndarray):
             if o() is not None:
                 o()._clear_dependent_caches(seen)
 
+    def __array_wrap__(self, array, *args, **kwargs):
+        """Called by NumPy on the output of a ufunc; when this array itself was the output (`out=self`) its contents changed"""
+        if array is self:
+            self._clear_dependent_caches()
+        return super().__array_wrap__(array, *args, **kwargs)
+
+    def _changing_in_place(name):
+        """ndarray methods that change the contents in place drop the caches first, as item assignment does"""
+
+        def method(self, *args, **kwargs):
+            self._clear_dependent_caches()
+            return getattr(super(PosBase, self), name)(*args, **kwargs)
+
+        method.__name__ = name
+        method.__doc__ = getattr(np.ndarray, name).__doc__
+        return method
+
+    fill = _changing_in_place("fill")
+    sort = _changing_in_place("sort")
+    partition = _changing_in_place("partition")
+    put = _changing_in_place("put")
+    setfield = _changing_in_place("setfield")
+    byteswap = _changing_in_place("byteswap")
+    del _changing_in_place
+
     def _link_shared_memory(self, source):
         """This array is made from `source`: link it with every position array in the chain it uses the memory of
 
